@@ -23,6 +23,20 @@
    The cache-size configuration (how many versions are kept; cleanup of older ones) is part of
    the state space: CacheSize \in 1..3 in the design-level model 2 and in the binding.
 
+   "A later cached read" includes reads after the process has been RESTARTED and has REFRESHED
+   again.  The refresh is conditional: the client sends the HTTP validator it finds in its
+   metadata (ETag file, else Last-Modified file) and a server whose configuration is still the
+   one described by that validator answers 304 Not Modified -- nothing is fetched, only the
+   post-fetch cleanup runs.  So the validator metadata is part of the cache state: which version
+   a validator file describes (files[n].ver for n \in MetaNames) and whether it is complete.
+     RefreshReadOK(r): the cached read after crash + restart + refresh against a server that
+                 still serves vnew: if the validator on disk does not describe vnew the refresh
+                 re-fetches (200) and r = vnew; if it does (304) r is vnew or the newest version
+                 that was valid on disk at the crash point -- the fallback only if there was none.
+   Design-level model 3 (D3Spec) adds the validator file, its position in the write programme
+   (MetaOrder) and the restart-and-refresh action (same or next server version; 304 / identical
+   payload / save under a NEW newest name) to the history model 2.
+
    Two writer designs and two reader designs are model-checked (MC*.cfg): the as-built pair
    (write straight to the final name, read newest file only) violates ReadOK -- kept as the
    non-vacuity control; (atomic temp+rename writer) or (reader that skips unparsable files)
@@ -34,7 +48,10 @@ CONSTANTS Names,       \* file names that may appear
           Writer,      \* "direct" | "atomic"         (design-level model only)
           Reader,      \* "newest" | "newestValid" | "newestValidWindow" (design-level model only)
           CacheSize,   \* number of versions kept (design-level model 2; "newestValidWindow" reader)
-          Cleanup      \* "after" | "before": pruning of old versions relative to the write (model 2)
+          Cleanup,     \* "after" | "before": pruning of old versions relative to the write (model 2)
+          MetaOrder,   \* "after" | "before": validator metadata written after / before the main file (model 3)
+          MetaNames,   \* names of metadata files (never configuration versions)
+          EtagName, LMName  \* the two validator files among them (ETag is preferred by the client)
 
 VARIABLES files,      \* [Names -> [ver : 0..MaxVer, len : Nat]] \cup absent marker
           full,       \* [1..MaxVer -> Nat]  payload lengths
@@ -42,8 +59,10 @@ VARIABLES files,      \* [Names -> [ver : 0..MaxVer, len : Nat]] \cup absent mar
           vnew,       \* version being written by the update in progress (0 = none)
           done,       \* the update programme has completed
           base,       \* validated versions on disk (under a final name) when the update in progress started
-          prog, pcw   \* design-level model: remaining programme of the update
-vars == <<files, full, finals, vnew, done, base, prog, pcw>>
+          prog, pcw,  \* design-level model: remaining programme of the update
+          slot,       \* design-level model 3: index (in FN) of the name used by the latest save
+          refr        \* design-level model 3: kind of the refresh in progress: "save" | "skip" | "notmod"
+vars == <<files, full, finals, vnew, done, base, prog, pcw, slot, refr>>
 
 Absent == [ver |-> -1, len |-> 0]
 Present(n) == files[n] # Absent
@@ -52,7 +71,7 @@ Present(n) == files[n] # Absent
 CompleteIn(fs, n) == fs[n] # Absent /\ fs[n].ver >= 1 /\ fs[n].len = full[fs[n].ver]
 Complete(n) == CompleteIn(files, n)
 ValidOnDiskIn(fs) == {fs[n].ver : n \in {m \in finals \cap DOMAIN fs : CompleteIn(fs, m)}}
-AnyCompleteIn(fs, v) == \E n \in DOMAIN fs : CompleteIn(fs, n) /\ fs[n].ver = v
+AnyCompleteIn(fs, v) == \E n \in (DOMAIN fs) \ MetaNames : CompleteIn(fs, n) /\ fs[n].ver = v
 MaxOf(S) == CHOOSE x \in S : \A y \in S : y <= x
 
 \* what the cache held at the start of the update is not lost at any crash point of the update
@@ -66,6 +85,24 @@ ReadOKIn(fs, r) ==
             \/ /\ vnew \in V /\ V \ {vnew} # {}
                /\ r = MaxOf(V \ {vnew})
 ReadOK(r) == ReadOKIn(files, r)
+
+(* ---- validator metadata and the conditional refresh ----------------------------------- *)
+\* length of a complete validator of version v in metadata file n (design models: as long as a
+\* payload; the trace spec substitutes the real lengths)
+ValFull(n, v) == full[v]
+\* the refresh of a restarted client against a server serving version v is answered 304: the
+\* validator the client sends (ETag file if non-empty, else Last-Modified file) is complete and
+\* describes v
+NotModIn(fs, v) ==
+    LET Has(n) == n \in DOMAIN fs /\ fs[n] # Absent /\ fs[n].len > 0
+        n == IF Has(EtagName) THEN EtagName ELSE IF Has(LMName) THEN LMName ELSE "" IN
+    IF n = "" THEN FALSE ELSE fs[n].ver = v /\ fs[n].len = ValFull(n, v)
+\* cached read after crash in state fs + restart + refresh against the unchanged server (vnew)
+RefreshReadOKIn(fs, r) ==
+    LET V == ValidOnDiskIn(fs) IN
+    IF ~NotModIn(fs, vnew) THEN r = vnew                  \* re-fetched and validated just now
+    ELSE IF V # {} THEN r = vnew \/ r = MaxOf(V)          \* never the fallback, never corrupt
+         ELSE r = vnew \/ r = 0
 
 (* ---- meaning of the file-system steps (used by the trace spec) ------------------------ *)
 FsCreate(n, trunc) == files' = [files EXCEPT ![n] = IF Present(n) /\ ~trunc THEN @ ELSE [ver |-> 0, len |-> 0]]
@@ -93,7 +130,7 @@ DInit == /\ full = [v \in 1..MaxVer |-> 2]
               /\ vnew = k + 1 /\ base = 1..k
               /\ finals = {FinalName(v) : v \in 1..(k + 1)}
               /\ prog = Programme(k + 1)
-         /\ done = FALSE /\ pcw = 0
+         /\ done = FALSE /\ pcw = 0 /\ slot = 0 /\ refr = "save"
 
 \* one byte of progress at a time: every byte-level truncation is a reachable state
 DStep == /\ prog # <<>> /\ ~done
@@ -105,11 +142,11 @@ DStep == /\ prog # <<>> /\ ~done
                                                            ELSE prog' = prog /\ pcw' = pcw + 1
               [] op[1] = "rename" -> /\ FsRename(op[2], op[3]) /\ prog' = Tail(prog) /\ pcw' = 0
          /\ done' = (prog' = <<>>)
-         /\ UNCHANGED <<full, finals, vnew, base>>
+         /\ UNCHANGED <<full, finals, vnew, base, slot, refr>>
 DSpec == DInit /\ [][DStep]_vars
 
 \* what the reader returns in the current (crash) state
-ConfigNames == {n \in Names : Present(n) /\ n # "meta" /\ n # "tmp"}   \* names matching the cache-file pattern
+ConfigNames == {n \in Names : Present(n) /\ n \notin MetaNames /\ n # "tmp"}   \* names matching the cache-file pattern
 NewestName(S) == CHOOSE n \in S : \A m \in S : Rank(m) <= Rank(n)
 ReadResult ==
     IF Reader = "newest"
@@ -135,7 +172,7 @@ Programme2(v) == IF Cleanup = "before" THEN << <<"cleanup", CacheSize - 1>> >> \
 D2Init == /\ full = [v \in 1..MaxVer |-> 2]
           /\ files = [n \in Names |-> Absent]
           /\ vnew = 1 /\ finals = {FinalName(v) : v \in 1..MaxVer} /\ base = {}
-          /\ prog = Programme2(1) /\ done = FALSE /\ pcw = 0
+          /\ prog = Programme2(1) /\ done = FALSE /\ pcw = 0 /\ slot = 0 /\ refr = "save"
 OldestName(S) == CHOOSE n \in S : \A m \in S : Rank(n) <= Rank(m)
 D2Step == /\ prog # <<>>
           /\ LET op == Head(prog) IN
@@ -150,12 +187,50 @@ D2Step == /\ prog # <<>>
                                                                  ELSE prog' = prog /\ pcw' = pcw + 1
                     [] op[1] = "rename" -> /\ FsRename(op[2], op[3]) /\ prog' = Tail(prog) /\ pcw' = 0
           /\ done' = (prog' = <<>>)
-          /\ UNCHANGED <<full, finals, vnew, base>>
+          /\ UNCHANGED <<full, finals, vnew, base, slot, refr>>
 \* the process stops anywhere (also mid-programme); the next start fetches the next version;
 \* what is valid on disk at that moment is what the next update must not lose
 D2CrashRestart == /\ vnew < MaxVer
                   /\ vnew' = vnew + 1 /\ prog' = Programme2(vnew + 1) /\ pcw' = 0 /\ done' = FALSE
                   /\ base' = ValidOnDiskIn(files)
-                  /\ UNCHANGED <<files, full, finals>>
+                  /\ UNCHANGED <<files, full, finals, slot, refr>>
 D2Spec == D2Init /\ [][D2Step \/ D2CrashRestart]_vars
+
+(* ---- design-level model 3: model 2 + validator metadata + restart-and-refresh ------------------
+   A save writes the main file under a NEW newest name FN[slot] (the name is a timestamp, not the
+   version: a re-fetch of the same version after a crash gets another name), the validator of the
+   fetched version (file EtagName) and the remaining metadata; then the cleanup.
+   MetaOrder = "after" : main file, then validator (as built);  "before": validator first (control).
+   D3Restart: the process stops ANYWHERE and the next start refreshes; the server still serves
+   vnew or has moved to vnew + 1.  Conditional request:
+     validator on disk complete and describing the served version -> 304: only the refresh time
+                 is recorded, then the cleanup runs                                ("notmod")
+     else 200; payload identical to the newest cache file -> no save, cleanup      ("skip")
+     else a full save under the next name, cleanup                                 ("save")   *)
+CleanupOp == <<"cleanup", CacheSize>>
+RefreshMeta == << <<"create", "meta">>, <<"write", "meta", 0>> >>
+Programme3(s, v) ==
+    LET main == IF Writer = "direct"
+                THEN << <<"create", FN[s]>>, <<"write", FN[s], v>> >>
+                ELSE << <<"create", "tmp">>, <<"write", "tmp", v>>, <<"rename", "tmp", FN[s]>> >>
+        val == << <<"create", EtagName>>, <<"write", EtagName, v>> >>
+    IN (IF MetaOrder = "after" THEN main \o val ELSE val \o main) \o RefreshMeta \o <<CleanupOp>>
+D3Init == /\ full = [v \in 1..MaxVer |-> 2]
+          /\ files = [n \in Names |-> Absent]
+          /\ vnew = 1 /\ finals = {FN[k] : k \in 1..Len(FN)} \cap Names /\ base = {}
+          /\ slot = 1 /\ refr = "save"
+          /\ prog = Programme3(1, 1) /\ done = FALSE /\ pcw = 0
+D3Restart == \E v \in {vnew, vnew + 1} :
+    /\ v <= MaxVer
+    /\ vnew' = v /\ base' = ValidOnDiskIn(files) /\ pcw' = 0 /\ done' = FALSE
+    /\ IF NotModIn(files, v)
+       THEN refr' = "notmod" /\ slot' = slot /\ prog' = RefreshMeta \o <<CleanupOp>>
+       ELSE IF ConfigNames # {} /\ Complete(NewestName(ConfigNames)) /\ files[NewestName(ConfigNames)].ver = v
+            THEN refr' = "skip" /\ slot' = slot /\ prog' = <<CleanupOp>>
+            ELSE /\ slot < Len(FN) /\ FN[slot + 1] \in Names
+                 /\ refr' = "save" /\ slot' = slot + 1 /\ prog' = Programme3(slot + 1, v)
+    /\ UNCHANGED <<files, full, finals>>
+D3Spec == D3Init /\ [][D2Step \/ D3Restart]_vars
+\* a refresh that received the payload (200) ends with a cache that returns it
+RefreshedIsNew == (done /\ refr # "notmod") => ReadResult = vnew
 =============================================================================
